@@ -40,6 +40,12 @@ func main() {
 	if d := os.Getenv("VERIF_DIR"); d != "" {
 		engine.VerifDir = d
 	}
+	if d := os.Getenv("VERIF_REPO"); d != "" {
+		engine.RepoDir = d // development aid: check a scratch copy of the repository
+	}
+	if d := os.Getenv("VERIF_EVIDENCE_DIR"); d != "" {
+		engine.OutDir = d
+	}
 	switch os.Args[1] {
 	case "check":
 		if len(os.Args) < 4 {
